@@ -65,15 +65,6 @@ start_rules = uf("ignore_start_rules", [Str], SeqOf(Str), concrete=_native_start
 path_rel = uf("path_relative_to", [PathT, PathT], PathT, concrete=lambda p, r: p.relative_to(r))
 
 
-def _native_disk_header(file_path, rule_id):
-    from pyvc.native import call_target, resolve_target
-    _, _, cls = resolve_target(IG + "IgnoreDirectiveParser")
-    return cls.has_file_ignore(object.__new__(cls), file_path, rule_id or None)
-
-
-disk_header_ignore = uf("disk_header_ignore", [PathT, Str], Bool, concrete=_native_disk_header)
-
-
 # ------------------------------------------------------------------ line-level specification
 @opaque
 def names_rule_in_line(code: Str, rule_id: Str) -> Bool:
@@ -385,18 +376,33 @@ class IsIgnoredInContent:
 from contracts.c14_collect import ign_now, ign_fresh, cache_coherent, cache_after  # noqa: E402  (is_ignored is contracted there)
 
 
-def rid_or_empty(rule_id):
-    return rule_id if rule_id is not None else ""
+from contracts.c15_language import fs_text, fs_io_ok, fs_utf8_ok  # noqa: E402  (one file-system snapshot per unit)
+from contracts.c09_paths import fs_exists  # noqa: E402
+
+
+def disk_header_lines(p):
+    """The file on disk as a line sequence, cut to its header: the first TEN lines (property text); nothing when the
+    file is missing or unreadable."""
+    return fs_text(p).splitlines()[:HEADER_LINES] if (fs_exists(p) and fs_io_ok(p) and fs_utf8_ok(p)) else []
+
+
+@opaque
+def disk_header_ignore(p: PathT, rule_id: Opt(Str)) -> Bool:
+    """An ignore-file directive naming rule_id stands in the header of the file on disk."""
+    return any(header_line_ignores(line, rule_id) for line in disk_header_lines(p))
 
 
 @contract(IG + "IgnoreDirectiveParser.has_file_ignore", props=["C04"],
-          types=dict(self=ParserT, file_path=PathT, rule_id=Opt(Str)), returns=Bool,
-          assumed="reads the file from disk (I/O): the verdict of the on-disk header scan is the uninterpreted "
-                  "disk_header_ignore(path, rule_id); the same scan on the in-memory content "
-                  "(_has_file_ignore_in_content) is verified")
+          types=dict(self=ParserT, file_path=PathT, rule_id=Opt(Str), first_lines=SeqOf(Str), content=Str), returns=Bool,
+          inline=["_read_file_first_lines"])
 class HasFileIgnore:
+    """Verified up to the read: _read_file_first_lines is executed inline over the file-system model (exists / read_text
+    are functions of the path, read errors are contained), so "only the first ten lines" is part of the proof."""
+    def reveals(file_path, rule_id):
+        return reveal(disk_header_ignore, file_path, rule_id)
+
     def value(file_path, rule_id):
-        return disk_header_ignore(file_path, rid_or_empty(rule_id))
+        return disk_header_ignore(file_path, rule_id)
 
 
 def file_level(cache, root, pats, p, content, rule_id):
